@@ -291,9 +291,17 @@ def run(ctx):
 
     # ---- R9.3 ---------------------------------------------------------------------------------
     tl = prog.fn("thread_load_metadata", "src/emu/thread.c")
+    asked = []
+
+    def s_num(ex_, st, args, f, e, val=None):
+        # the value of the marker key; any other number the loader may read is fine
+        if len(args) > 1 and args[1] == ("str", MARK):
+            asked.append(f.name)
+            return [(INT(val), {})]
+        return [(INT(1), {})]
     for val in (0, 1, 2):
         ex3 = absint.Explorer(prog, effects=eff, summaries={
-            "json_object_dotget_number": lambda ex_, st, args, f, e, val=val: [(INT(val), {})],
+            "json_object_dotget_number": lambda ex_, st, args, f, e, val=val: s_num(ex_, st, args, f, e, val),
             "stream_metadata": lambda ex_, st, args, f, e: [(PTR("META"), {})]})
         outs = ex3.run(tl, [PTR("TH"), PTR("STREAM")], {("TH", F("thread", "meta")): NULL})
         acc = [o for o in outs if o.kind == "ret" and o.ret == INT(0)]
@@ -302,7 +310,7 @@ def run(ctx):
         else:
             ctx.check(not acc, "R9.3", "thread_load_metadata:finished=%d" % val, tl.loc(),
                       "a stream whose ovni.finished is %d is accepted" % val)
-    key_ok = any(n["k"] == "StringLiteral" and n["s"] == MARK for n in tl.nodes)
+    key_ok = bool(asked)      # whichever private helper does the reading
     ctx.check(key_ok, "R9.3", "thread_load_metadata:reads-marker-key", tl.loc(),
               "thread_load_metadata does not read '%s'" % MARK)
     main = prog.fn("main", "src/emu/ovniemu.c")
